@@ -38,7 +38,8 @@ Proof.
       by (apply lt32_cases in E3; cbn [In] in E3; repeat (destruct E3 as [E3|E3]; [subst c; reflexivity|]); contradiction).
     replace (c :: d) with (to_utf w (hex4v dc_zero dc_zero (dc_zero + N.shiftr c 4) (hexdig (N.land c 15))) ++ d)
       by (rewrite Hh, to_utf_small by lia; reflexivity).
-    apply SB_u; [reflexivity|reflexivity| |assumption].
+    apply SB_u; [reflexivity|reflexivity| | |assumption].
+    { clear Hh. apply lt32_cases in E3; cbn [In] in E3; repeat (destruct E3 as [E3|E3]; [subst c; reflexivity|]); contradiction. }
     rewrite Hh. unfold is_high. apply N.eqb_neq. intros Hc.
     apply lt32_cases in E3; cbn [In] in E3; repeat (destruct E3 as [E3|E3]; [subst c; discriminate|]); contradiction. }
   cbn [app]. apply SB_raw; [|assumption].
